@@ -17,7 +17,7 @@ import numpy as np
 PROP = "C17"
 LEVEL = "exploration"
 VARIANTS = ("omp",)
-CASE_TIMEOUT = 400
+CASE_TIMEOUT = 1200
 RULE = ("kind structure: 15 interfaces (cp2k: dependency absent) x cells (triclinic/hexagonal/cubic, species grouped | interleaved | randomly permuted, positions outside [0,1), "
         "rigidly rotated lattice) : write_crystal_structure -> read_crystal_structure and every file of write_supercells_with_displacements; compared: metric tensor, "
         "species with fractional positions modulo 1, atom order (preserved or stable grouping by first appearance); "
